@@ -78,10 +78,16 @@ def spin_shapes(rng, n):
             # consumes, control is back at the same condition with the same data
             tail = rng.choice(["", "h();", '"q";', f"{pat};"])
             body = f'loop a {{ loop b {{ if i == 0 {{ break b; }} {pat}; }} {tail} }}'
+        if k < 3:
+            # loop names: a break written before a nested (or later) loop of the same name must not refer to that loop
+            kind = 99
+            body = ['loop l { case { "a" -> {} else -> { break l; } } loop l { case { "b" -> {} ";" -> { break; } } } }',
+                    'loop outer { case { "c" -> {} "q" -> { break outer; } else -> { break inner; } } loop inner { "a"; } }',
+                    'loop m { loop l { case { "a" -> { break l; } "c" -> { break m; } } } loop l { "b"; break; } } "x";'][k]
         src = decl + "parser {\n  " + body + "\n}\n"
-        out.append({"name": f"spin-{k}", "src": src, "feats": {}, "args": ["-fyield-support"] if kind >= 14 else [],
+        out.append({"name": f"spin-{k}", "src": src, "feats": {}, "args": ["-fyield-support"] if 14 <= kind < 99 else [],
                     "origin": "spin-shape", "shape": kind,
-                    "level": rng.choice(["-O3", "-O3", "-O1"]) if kind >= 14 else rng.choice(["-O0", "-O1", "-O3"])})
+                    "level": "-O0" if kind == 99 else rng.choice(["-O3", "-O3", "-O1"]) if 14 <= kind < 99 else rng.choice(["-O0", "-O1", "-O3"])})
     return out
 
 
